@@ -146,8 +146,21 @@ class RecWalker(h5spec.Walker):
     # -- object headers
     def ohdr(self, addr, owner):
         e0, d0 = len(self.extents), len(self.dev)
-        hd = super().ohdr(addr, owner)
         b = self.b
+        try:
+            hd = super().ohdr(addr, owner)
+        except h5spec.SpecError as e:
+            # the header chunk as far as its own prefix delimits it
+            if bytes(b[addr:addr + 4]) == b"OHDR" and addr + 6 <= self.n:
+                fl = b[addr + 5]
+                p = addr + 6 + (16 if fl & 0x20 else 0) + (4 if fl & 0x10 else 0)
+                w = 1 << (fl & 3)
+                end = min(self.n, p + w + int.from_bytes(b[p:p + w], "little"))
+                self.rej("ohdr2", [], b[addr:end], e, "%s@%d" % (owner, addr))
+            elif addr + 16 <= self.n and b[addr] == 1:
+                end = min(self.n, addr + 16 + int.from_bytes(b[addr + 8:addr + 12], "little"))
+                self.rej("ohdr1", [], b[addr:end], e, "%s@%d" % (owner, addr))
+            raise
         for s, e, kind, _ in self.extents[e0:]:
             inside = [m for m in hd["msgs"] if s < m[3] <= e]
             ml = (lambda inside=inside: VL([VL([VN(t), VN(fl), VB(body)]) for t, fl, body, off in inside]))
